@@ -11,6 +11,7 @@ import (
 	"testing"
 	"time"
 	"unicode/utf16"
+	"unicode/utf8"
 
 	dtpb "github.com/google/fhir/go/proto/google/fhir/proto/r4/core/datatypes_go_proto"
 	opb "github.com/google/fhir/go/proto/google/fhir/proto/r4/core/resources/observation_go_proto"
@@ -1067,3 +1068,78 @@ func TestC15(t *testing.T) {
 		Stage[c15FhirIntCase]{Name: "fhirconv-integer", Enum: c15EnumFhirInt, Run: c15RunFhirInt},
 	)
 }
+
+// --- native go-fuzz target (thorough tier): the coverage-guided mutator chooses the operands,
+// the stage's own Run function (reference model inside the target) judges them ---------------
+
+// c15Escape spells the string s as a FHIRPath string literal; the bytes of ch choose, rune by
+// rune, between the raw character, the simple escape and the \uXXXX spelling (surrogate pairs
+// above the BMP) wherever the grammar offers a choice.
+func c15Escape(s string, ch []byte) string {
+	var lit strings.Builder
+	lit.WriteByte('\'')
+	i := 0
+	for _, r := range s {
+		var k byte
+		if i < len(ch) {
+			k = ch[i]
+		}
+		i++
+		u := func() {
+			if r > 0xffff {
+				hi, lo := utf16.EncodeRune(r)
+				fmt.Fprintf(&lit, `\u%04X\u%04x`, hi, lo)
+			} else if k&0x10 != 0 {
+				fmt.Fprintf(&lit, `\u%04X`, r)
+			} else {
+				fmt.Fprintf(&lit, `\u%04x`, r)
+			}
+		}
+		simple := map[rune]string{'\'': `\'`, '\\': `\\`, '"': `\"`, '`': "\\`", '/': `\/`, '\f': `\f`, '\n': `\n`, '\r': `\r`, '\t': `\t`}
+		switch {
+		case r == '\'' || r == '\\':
+			if k%3 == 2 {
+				u()
+			} else {
+				lit.WriteString(simple[r])
+			}
+		case r == '\r':
+			if k%2 == 1 {
+				u()
+			} else {
+				lit.WriteString(simple[r])
+			}
+		case simple[r] != "":
+			switch k % 3 {
+			case 0:
+				lit.WriteString(simple[r])
+			case 1:
+				lit.WriteRune(r)
+			default:
+				u()
+			}
+		default:
+			if k%3 == 2 {
+				u()
+			} else {
+				lit.WriteRune(r)
+			}
+		}
+	}
+	lit.WriteByte('\'')
+	return lit.String()
+}
+
+func FuzzC15(f *testing.F) {
+	f.Add("it's \"a\" `b` \\ / \f\n\r\t é€日😀", []byte{0, 1, 2, 3, 4, 5, 6, 7, 8, 9, 10, 11, 12, 13, 14, 15, 16, 17, 18, 19, 20, 21, 22, 23, 24, 25})
+	f.Add("u00e9\\u00e9", []byte{2, 2, 2, 0, 0, 0})
+	f.Add("", []byte{})
+	f.Add("a  b c", []byte{1, 1, 1})
+	f.Fuzz(func(t *testing.T, s string, ch []byte) {
+		if len(s) > 64 || !utf8.ValidString(s) {
+			return
+		}
+		fuzzCase(t, "C15", "string-escapes", c15StrCase{S: s, Lit: c15Escape(s, ch)}, c15RunStr)
+	})
+}
+
